@@ -41,3 +41,7 @@ Proof. destruct r; simpl; intros H; try discriminate. eauto. Qed.
 Lemma bind_no_panic {A B} (r : res A) (f : A -> res B) :
   r <> Panic -> (forall a, r = Ok a -> f a <> Panic) -> bind r f <> Panic.
 Proof. destruct r; simpl; intros H1 H2; auto; discriminate. Qed.
+
+(* injectivity without the normalisation [injection] / [inversion] perform on the payload *)
+Lemma Ok_inj {A} (a b : A) : Ok a = Ok b -> a = b.
+Proof. congruence. Qed.
